@@ -69,6 +69,16 @@ let () =
     | pre :: rest ->
       let (etoks, stoks) = split [] rest in
       let (sx, _) = parse (tokenize (String.concat " " etoks)) in
-      let rs = exec (ex sx) (pre = "1") (script_of stoks) in
-      String.concat ";" (List.map render (r_tr rs)) ^ " # roots=" ^ string_of_int (int_of_nat (r_roots rs))
+      (* one batch per script event, separated by "|" (the first batch is start()) *)
+      let e = ex sx in
+      let rs0 = run_start e (pre = "1") in
+      let buf = Buffer.create 256 in
+      let emit evs = List.iter (fun x -> if Buffer.length buf > 0 then Buffer.add_char buf ';'; Buffer.add_string buf x) evs in
+      let drop n l = let rec go n l = if n <= 0 then l else match l with [] -> [] | _ :: r -> go (n - 1) r in go n l in
+      emit (List.map render (r_tr rs0));
+      let rs = List.fold_left (fun rs ev ->
+          let rs' = run_ev e rs ev in
+          emit ("|" :: List.map render (drop (List.length (r_tr rs)) (r_tr rs')));
+          rs') rs0 (script_of stoks) in
+      Buffer.contents buf ^ " # roots=" ^ string_of_int (int_of_nat (r_roots rs))
     | _ -> "ERR args")
